@@ -3,7 +3,7 @@ CONSTANTS
   Cfgs <- MCCfgsQ
   PTOs <- MCPTOsQ
   Steps <- MCStepsQ
-  AbortErrs = {"nil", "app"}
+  AbortErrs = {"nil", "app", "other"}
   MaxWaiters = 1
   WithEpClose = FALSE
   AppCode = 7
